@@ -1295,7 +1295,7 @@ add_num_op(phase_t *ph, int kind, int sect, int name, int64_t v) {
 static phase_t PH_CLOSED, PH_MIXED, PH_DEEP;
 
 static void
-phases_init(void) {
+phases_init(int inplace) {
 	size_t i;
 	int s;
 
@@ -1313,11 +1313,12 @@ phases_init(void) {
 
 	/* closed: ini_val_set only (plus an alternative initial store with blank lines and a comment),
 	 * searched until no new state appears => every set sequence of ANY length over the alphabet.
-	 * quick: 2 sections x 2 names (k, K) x {"1", 40 bytes}; thorough: x {"", "1", 40 bytes, 17 bytes} */
+	 * quick: 2 sections x 2 names (k, K) x {"1", 40 bytes}; thorough: x {"", "1", 40 bytes, 17 bytes}
+	 * (configuration inplace: x {"", "1", 40 bytes}; its state space is 2.5 x larger per value) */
 	PH_CLOSED.name = "closed";
 	PH_CLOSED.depth = MAXD - 1;
 	add_parse_op(&PH_CLOSED, 8, 1);
-	add_set_ops(&PH_CLOSED, 2, 2, vh_thorough ? "0124" : "12", 5);
+	add_set_ops(&PH_CLOSED, 2, 2, vh_thorough ? (inplace ? "012" : "0124") : "12", 5);
 
 	/* deep: a smaller alphabet, more levels */
 	PH_DEEP.name = "deep";
@@ -1331,7 +1332,7 @@ phases_init(void) {
 
 	/* mixed: everything, depth bounded */
 	PH_MIXED.name = "mixed";
-	PH_MIXED.depth = vh_thorough ? 4 : 3;
+	PH_MIXED.depth = (vh_thorough && !inplace) ? 4 : 3;
 	for (s = 0; s < 8; s ++)
 		add_parse_op(&PH_MIXED, s, 0);
 	add_set_ops(&PH_MIXED, 3, 3, "01234", 7);
@@ -1435,7 +1436,7 @@ main(int argc, char **argv) {
 		} else if (0 == strcmp(argv[i], "--phases") && i + 1 < argc)	/* comma list */
 			only_phase = argv[++ i];
 	}
-	phases_init();
+	phases_init(0 == strcmp(cfg, "inplace"));
 	vh_set_describer(describe);
 	if (NULL != single_phase)
 		return (single(single_phase, single_hist));
